@@ -44,7 +44,45 @@ def _case(draw):
             'loss_scale': draw(st.sampled_from([None, None, 64.0, 1024.0])), 'in_hook': draw(st.booleans()),
             'kl_clip': draw(st.sampled_from([1e-3, 1e30])),
             'N': draw(st.integers(2, 4)), 'style': draw(gens.style_strategy()),
-            'mem_format': draw(st.sampled_from(['contiguous', 'contiguous', 'channels_last'])), 'program': ops}
+            'mem_format': draw(st.sampled_from(['contiguous', 'contiguous', 'channels_last'])),
+            'accum': draw(st.sampled_from([1, 1, 2, 3])), 'program': ops}
+
+
+def _kfac_only_run(case, program, kw):
+    """Model + K-FAC only (no twin, no checks): post-step gradients of every train op and the final factors."""
+    import torch
+    from kfac.preconditioner import KFACPreconditioner
+    from vkit import kmodel
+    pd = kmodel.dt(case['param_dtype'])
+    model = kmodel.build_model(case['spec'], pd)
+    with warnings.catch_warnings():
+        warnings.simplefilter('ignore')
+        pre = KFACPreconditioner(model, **kw)
+    scale = case['loss_scale'] or 1.0
+    accum = case.get('accum', 1)
+    out = []
+    for op in program:
+        train = op['op'] == 'train'
+        model.train(train)
+        model.zero_grad(set_to_none=True)
+        for micro in range(accum if train else 1):
+            x = kmodel.make_input(case['spec'], case['N'], op['seed'] + 7919 * micro, case['style'], pd)
+            if case.get('mem_format') == 'channels_last':
+                x = x.contiguous(memory_format=torch.channels_last) if x.dim() == 4 else x.transpose(-1, -2).contiguous().transpose(-1, -2)
+            (kmodel.loss_of(model(x), op['seed'] + 1 + micro, case['N']) * scale).backward()
+        if not train:
+            continue
+        for p in model.parameters():
+            if p.grad is not None:
+                p.grad /= (scale * accum)
+        pre.step()
+        out.append({n: (None if p.grad is None else p.grad.detach().clone()) for n, p in model.named_parameters()})
+        with torch.no_grad():
+            for p in model.parameters():
+                if p.grad is not None and p.requires_grad and torch.isfinite(p.grad).all():
+                    p.add_((p.grad / max(1.0, p.grad.abs().max().item())).to(p.dtype), alpha=-0.05)
+    fac = {n: {k: (None if v is None else v.detach().clone()) for k, v in f.items()} for n, f in pre.state_dict()['layers'].items()}
+    return out, fac, pre.steps
 
 
 class C10(Prop):
@@ -53,10 +91,10 @@ class C10(Prop):
     rule = ('Hypothesis draws a runnable model of 1-4 supported layers interleaved with unsupported trainable modules (LayerNorm, BatchNorm2d, '
             'an affine module), contiguous or dense non-contiguous batches (channels_last for 4-d inputs, transposed storage otherwise), residual blocks x + fn(x) around registered Linear/Conv2d layers, wholly or partly frozen layers, 0-2 skip '
             'patterns (names and class names), parameter dtype float32/float64/bfloat16, factor and inverse dtypes, both methods, optional loss '
-            'scale with grad_scaler, and a sequence of eval passes and 1-3 train steps. Oracle: around every step() all parameters and buffers '
+            'scale with grad_scaler, accumulation_steps 1-3, and a sequence of eval passes and 1-3 train steps. Oracle: around every step() all parameters and buffers '
             'bit-identical, gradients of parameters outside the registered layers bit-identical (None stays None), registered gradients keep '
             'shape, dtype, device, contiguity and are finite; around eval-mode forward/backward passes state_dict(), memory_usage() and steps '
-            'unchanged; outputs and autograd gradients bit-identical to a twin model without K-FAC (fed its own copy of the batch) in every pass, the batch itself left unmodified and no pass failing only with K-FAC registered. Non-trivial: >= 1 registered '
+            'unchanged, and the same history without the eval passes gives bit-identical post-step gradients and final factors; outputs and autograd gradients bit-identical to a twin model without K-FAC (fed its own copy of the batch) in every pass, the batch itself left unmodified and no pass failing only with K-FAC registered. Non-trivial: >= 1 registered '
             'and >= 1 unregistered trainable module and one of {skip pattern hit, frozen module, non-float32 parameters, eval pass, residual block}.')
     assumptions = ['the set of registered layers is computed by the harness with the eligibility rule of C16 (leaf Linear/Conv2d, all parameters trainable, no pattern hit)',
                    'bit-identity with the twin relies on deterministic CPU kernels (torch.use_deterministic_algorithms is not required for these ops)']
@@ -100,7 +138,8 @@ class C10(Prop):
         reg_params = {f'{n}.{pn}' if n else pn for n, m in registered.items() for pn, _ in m.named_parameters()}
         kw = dict(compute_method=case['method'], compute_eigenvalue_outer_product=case['prediv'], skip_layers=list(pats),
                   factor_dtype=kmodel.dt(case['factor_dtype']), inv_dtype=kmodel.dt(case['inv_dtype']),
-                  update_factors_in_hook=case['in_hook'], kl_clip=case['kl_clip'], damping=0.05)
+                  update_factors_in_hook=case['in_hook'], kl_clip=case['kl_clip'], damping=0.05,
+                  accumulation_steps=case.get('accum', 1))
         if case['loss_scale']:
             kw['grad_scaler'] = (lambda s=case['loss_scale']: s)
         with warnings.catch_warnings():
@@ -116,6 +155,7 @@ class C10(Prop):
                   'mem_format': case.get('mem_format', 'contiguous'),
                   'factor_dtype_is_param_dtype': case['factor_dtype'] == case['param_dtype']}
         scale = case['loss_scale'] or 1.0
+        accum = case.get('accum', 1)
         unreg_trainable = any(p.requires_grad for n, p in model.named_parameters() if n not in reg_params)
         saw_eval = False
         for i, op in enumerate(case['program']):
@@ -124,36 +164,37 @@ class C10(Prop):
             for m in (model, twin):
                 m.train(train)
                 m.zero_grad(set_to_none=True)
-            x = kmodel.make_input(case['spec'], case['N'], op['seed'], case['style'], pd)
             if not train:
                 sd0 = pre.state_dict()
                 mem0 = dict(pre.memory_usage())
                 st0 = pre.steps
-            if case.get('mem_format') == 'channels_last':
-                # a dense, non-contiguous batch: channels_last for 4-d inputs, the last two dimensions stored transposed otherwise
-                x = x.contiguous(memory_format=torch.channels_last) if x.dim() == 4 else x.transpose(-1, -2).contiguous().transpose(-1, -2)
-            # the twin gets its own copy of the batch: a hook that writes into its input must not reach the twin through aliasing
-            x2, x_orig = x.clone(memory_format=torch.preserve_format), x.clone(memory_format=torch.preserve_format)
-            y2 = twin(x2)
-            (kmodel.loss_of(y2, op['seed'] + 1, case['N']) * scale).backward()
-            try:
-                y = model(x)
-                (kmodel.loss_of(y, op['seed'] + 1, case['N']) * scale).backward()
-            except RuntimeError as e:
-                # the same pass succeeded on the twin without K-FAC
-                return violation(f'op {i} {op}: forward/backward raised with K-FAC registered but not on the twin without it: '
-                                 f'{type(e).__name__}: {str(e)[:200]}', 'autograd-changed', labels=labels)
-            if not torch.equal(x, x_orig):
-                return violation(f'op {i} {op}: the input batch was modified in place by a pass with K-FAC registered (factor_dtype='
-                                 f'{case["factor_dtype"]}, param_dtype={case["param_dtype"]}, mem_format={case.get("mem_format")})', 'input-modified', labels=labels)
-            if not torch.equal(y.detach(), y2.detach()) and not (torch.isnan(y).any() and torch.isnan(y2).any()):
-                return violation(f'op {i} {op}: model output differs from the twin without K-FAC', 'output-changed', labels=labels)
-            for (n1, p1), (n2, p2) in zip(model.named_parameters(), twin.named_parameters()):
-                a, b = p1.grad, p2.grad
-                if (a is None) != (b is None) or (a is not None and not torch.equal(a, b)):
-                    d = (a.float() - b.float()).abs().max().item() if a is not None and b is not None else float('nan')
-                    return violation(f'op {i} {op}: autograd gradient of {n1} differs from the twin without K-FAC (max abs diff {d:.3e}; '
-                                     f'loss_scale={case["loss_scale"]}, residual={has_res})', 'autograd-changed', labels=labels)
+            for micro in range(accum if train else 1):
+              x = kmodel.make_input(case['spec'], case['N'], op['seed'] + 7919 * micro, case['style'], pd)
+              if case.get('mem_format') == 'channels_last':
+                  # a dense, non-contiguous batch: channels_last for 4-d inputs, the last two dimensions stored transposed otherwise
+                  x = x.contiguous(memory_format=torch.channels_last) if x.dim() == 4 else x.transpose(-1, -2).contiguous().transpose(-1, -2)
+              # the twin gets its own copy of the batch: a hook that writes into its input must not reach the twin through aliasing
+              x2, x_orig = x.clone(memory_format=torch.preserve_format), x.clone(memory_format=torch.preserve_format)
+              y2 = twin(x2)
+              (kmodel.loss_of(y2, op['seed'] + 1 + micro, case['N']) * scale).backward()
+              try:
+                  y = model(x)
+                  (kmodel.loss_of(y, op['seed'] + 1 + micro, case['N']) * scale).backward()
+              except RuntimeError as e:
+                  # the same pass succeeded on the twin without K-FAC
+                  return violation(f'op {i} {op}: forward/backward raised with K-FAC registered but not on the twin without it: '
+                                   f'{type(e).__name__}: {str(e)[:200]}', 'autograd-changed', labels=labels)
+              if not torch.equal(x, x_orig):
+                  return violation(f'op {i} {op}: the input batch was modified in place by a pass with K-FAC registered (factor_dtype='
+                                   f'{case["factor_dtype"]}, param_dtype={case["param_dtype"]}, mem_format={case.get("mem_format")})', 'input-modified', labels=labels)
+              if not torch.equal(y.detach(), y2.detach()) and not (torch.isnan(y).any() and torch.isnan(y2).any()):
+                  return violation(f'op {i} {op}: model output differs from the twin without K-FAC', 'output-changed', labels=labels)
+              for (n1, p1), (n2, p2) in zip(model.named_parameters(), twin.named_parameters()):
+                  a, b = p1.grad, p2.grad
+                  if (a is None) != (b is None) or (a is not None and not torch.equal(a, b)):
+                      d = (a.float() - b.float()).abs().max().item() if a is not None and b is not None else float('nan')
+                      return violation(f'op {i} {op}: autograd gradient of {n1} differs from the twin without K-FAC (max abs diff {d:.3e}; '
+                                       f'loss_scale={case["loss_scale"]}, residual={has_res})', 'autograd-changed', labels=labels)
             if not train:
                 sd1 = pre.state_dict()
                 if pre.steps != st0 or dict(pre.memory_usage()) != mem0:
@@ -164,11 +205,11 @@ class C10(Prop):
                         if (a is None) != (b is None) or (a is not None and not torch.equal(a, b)):
                             return violation(f'op {i}: eval-mode pass changed factor {f} of {n}', 'eval-changed-state', labels=labels)
                 continue
-            if scale != 1.0:
+            if scale * accum != 1.0:
                 for m in (model, twin):
                     for p in m.parameters():
                         if p.grad is not None:
-                            p.grad /= scale
+                            p.grad /= (scale * accum)
             params0 = {n: p.detach().clone() for n, p in model.named_parameters()}
             bufs0 = {n: b.detach().clone() for n, b in model.named_buffers()}
             grads0 = {n: (None if p.grad is None else p.grad.detach().clone()) for n, p in model.named_parameters()}
@@ -209,6 +250,30 @@ class C10(Prop):
                     p2.copy_(p1)
                 for (n1, b1), (n2, b2) in zip(model.named_buffers(), twin.named_buffers()):
                     b2.copy_(b1)
+        if saw_eval and registered:
+            # eval-mode passes leave ALL K-FAC state unchanged, also the part state_dict() does not show (accumulation counters, saved
+            # batch statistics): the same history with the eval passes removed must give bit-identical gradients and factors
+            try:
+                g1, f1, s1 = _kfac_only_run(case, case['program'], kw)
+                g2, f2, s2 = _kfac_only_run(case, [o for o in case['program'] if o['op'] == 'train'], kw)
+            except torch.linalg.LinAlgError:
+                g1 = g2 = f1 = f2 = s1 = s2 = None
+            if g1 is not None:
+                if s1 != s2:
+                    return violation(f'eval-mode passes changed the step count ({s1} vs {s2} without them)', 'eval-changed-state', labels=labels)
+                for t, (a, b) in enumerate(zip(g1, g2)):
+                    for n in a:
+                        if (a[n] is None) != (b[n] is None) or (a[n] is not None and not torch.equal(a[n], b[n]) and not (torch.isnan(a[n]).any() and torch.isnan(b[n]).any())):
+                            return violation(f'train step {t}: gradient of {n} after step() differs between the history with eval-mode passes and the '
+                                             f'same history without them (accumulation_steps={accum}, in_hook={case["in_hook"]}, program='
+                                             f'{[o["op"] for o in case["program"]]})', 'eval-changed-state', labels=labels)
+                for n in f1:
+                    for k in ('A', 'G'):
+                        a, b = f1[n][k], f2[n][k]
+                        if (a is None) != (b is None) or (a is not None and not torch.equal(a, b) and not (torch.isnan(a).any() and torch.isnan(b).any())):
+                            return violation(f'factor {k} of {n} at the end differs between the history with eval-mode passes and the same history '
+                                             f'without them (accumulation_steps={accum}, in_hook={case["in_hook"]})', 'eval-changed-state', labels=labels)
+        labels['accum'] = accum
         nt = bool(registered) and unreg_trainable and (labels['skipped'] or labels['frozen'] or case['param_dtype'] != 'float32' or saw_eval or has_res)
         labels['nontrivial'] = nt
         return passed(nt, labels)
